@@ -5,6 +5,7 @@ import (
 	"encoding/json"
 	"flag"
 	"fmt"
+	"go/token"
 	"math/big"
 	"math/rand"
 	"os"
@@ -17,7 +18,6 @@ import (
 
 	"golang.org/x/tools/go/packages"
 	"golang.org/x/tools/go/ssa"
-	"golang.org/x/tools/go/ssa/ssautil"
 )
 
 type Job struct {
@@ -127,7 +127,20 @@ func main() {
 	if nerr > 0 {
 		fatal(fmt.Errorf("%d package load errors", nerr))
 	}
-	prog, _ := ssautil.AllPackages(pkgs, ssa.InstantiateGenerics)
+	// like ssautil.AllPackages, but also for packages go/packages marks IllTyped only because of the
+	// (ignored) "C source files not allowed" list error of the overlaid cgo package and its dependents
+	var fset *token.FileSet
+	packages.Visit(pkgs, nil, func(p *packages.Package) {
+		if fset == nil && p.Fset != nil {
+			fset = p.Fset
+		}
+	})
+	prog := ssa.NewProgram(fset, ssa.InstantiateGenerics)
+	packages.Visit(pkgs, nil, func(p *packages.Package) {
+		if p.Types != nil && p.TypesInfo != nil && len(p.Syntax) > 0 || (p.Types != nil && p.PkgPath == "unsafe") {
+			prog.CreatePackage(p.Types, p.Syntax, p.TypesInfo, true)
+		}
+	})
 	prog.Build()
 	fmt.Fprintf(os.Stderr, "gosym: loaded and built SSA in %.1fs\n", time.Since(t0).Seconds())
 
